@@ -132,7 +132,8 @@ prop("C18",
      rule="(a) grammar sentences with one token mutation and optionally one byte mutation (truncation, quote, backslash, NUL, dot, bad number characters, line terminators); (b) valid documents with one injected violation per rule, hostile ASCII layouts; (c) C04-style adversarial executions printed under drawn layouts. Non-trivial = an error on a text containing a line terminator, or a path with a list index; distinct by text / case hash.",
      assumptions=SYN_ASSUME + EXEC_ASSUME,
      runs=[dict(test="^TestC18_Syntax$", quick=dict(checks=10000), thorough=dict(checks=100000, shards=16, timeout=3000)),
-           dict(test="^TestC18_Field$", quick=dict(checks=2500), thorough=dict(checks=25000, shards=16, timeout=3000))])
+           dict(test="^TestC18_Field$", quick=dict(checks=2500), thorough=dict(checks=25000, shards=16, timeout=3000)),
+           dict(test="^TestC18_Validation$", quick=dict(checks=1500), thorough=dict(checks=15000, shards=16, timeout=3000))])
 
 prop("C12",
      level_text="repeat-and-compare search: each request (a catalogue aimed at every place where output is built from a Go map, plus rapid-generated valid / failing / invalid requests) is executed 13 times in one process, interleaved with other requests and also served through a plan cache, and the JSON bytes and ValidateDocument error lists must be identical; the same generated requests are then run in several fresh processes (fresh map seeds) and their response digests must agree",
